@@ -62,4 +62,15 @@ def monSysTicks : List MonIn → Nat
   | [] => 0
   | x :: xs => (if x.ts then 1 else 0) + monSysTicks xs
 
+/-- Every value the latched count holds along the schedule (start value first). -/
+def monLatdHist (w : Nat) (s : MonState) : List MonIn → List Nat
+  | [] => [s.latd]
+  | x :: xs => s.latd :: monLatdHist w (monStep w s x) xs
+
+/-- No sys-clock edge coincides with an edge of the monitored clock at which the latched count changes (a latch
+    or reset event landing) — the only instants in which the status synchroniser's first flop can be torn. -/
+def NoCoincidentChange (w : Nat) (s : MonState) : List MonIn → Prop
+  | [] => True
+  | x :: xs => (x.ts = true → x.tc = true → latdN s = s.latd) ∧ NoCoincidentChange w (monStep w s x) xs
+
 end Litex.Cdc
